@@ -123,6 +123,8 @@ macro_rules! apply_claim {
             ClaimSpec::Nbf(s) => go_res!(NotBeforeClaim::try_from(s.as_str())),
             ClaimSpec::Iat(s) => go_res!(IssuedAtClaim::try_from(s.as_str())),
             ClaimSpec::Custom { key, value } => go_res!(CustomClaim::try_from((key.clone(), value.clone()))),
+            ClaimSpec::CustomRef { key, value } => go_res!(CustomClaim::try_from((key.as_str(), value.clone()))),
+            ClaimSpec::Bare { key, value } => go!(BareClaim { key: key.clone(), value: value.clone() }),
             ClaimSpec::Native { key, val } => match val {
                 NativeVal::I64(x) => go_res!(CustomClaim::try_from((key.clone(), *x))),
                 NativeVal::U64(x) => go_res!(CustomClaim::try_from((key.clone(), *x))),
@@ -141,6 +143,23 @@ macro_rules! apply_claim {
             },
         }
     }};
+}
+
+/// A caller-defined claim type: the trait `PasetoClaim` is public, and nothing requires an
+/// implementation to serialise as a {key: value} map.
+pub struct BareClaim {
+    pub key: String,
+    pub value: serde_json::Value,
+}
+impl PasetoClaim for BareClaim {
+    fn get_key(&self) -> &str {
+        &self.key
+    }
+}
+impl serde::Serialize for BareClaim {
+    fn serialize<S: serde::Serializer>(&self, s: S) -> Result<S::Ok, S::Error> {
+        self.value.serialize(s)
+    }
 }
 
 // -------------------------------------------------------------------------------------------------
